@@ -33,6 +33,12 @@ def text_member(case: t.Dict[str, t.Any]) -> t.Callable[[int], str]:
     base = case["base"]
     pos = case["pos"] % (len(base) + 1)
     plen = case["plen"]
+    if case.get("tokens"):
+        # token-level pump: snap to the previous token boundary and take the next k space-separated tokens
+        while pos > 0 and base[pos - 1] != " ":
+            pos -= 1
+        toks = base[pos:].split(" ")
+        plen = len(" ".join(toks[: case["tokens"]])) + 1
     pump = case["sym"] if case["sym"] else (base[pos : pos + plen] or "a")
     prefix = base[:pos]
     rest = base[pos:]
@@ -89,7 +95,7 @@ def text_family(draw: t.Any, tier: str) -> t.Dict[str, t.Any]:
         base = draw(gens.memo(f"c18.{kind}", lambda: rfc4512.sentence(kind)))["text"]
     if len(base) > 160:
         base = base[:160]
-    maxp = 4 if tier == QUICK else 8
+    maxp = 4 if tier == QUICK else 12
     sym = draw(st.one_of(st.none(), st.none(), st.sampled_from(alphabet()), st.text(st.sampled_from(alphabet()), min_size=2, max_size=3)))
     return {
         "entry": entry,
@@ -99,6 +105,7 @@ def text_family(draw: t.Any, tier: str) -> t.Dict[str, t.Any]:
         "sym": sym,
         "suffix": draw(st.sampled_from(_SUFFIX)),
         "lines": draw(st.integers(0, 9)) == 0,
+        "tokens": draw(st.sampled_from([0, 0, 0, 1, 2, 3, 4])),
     }
 
 
